@@ -36,18 +36,39 @@ var c12AlgNames = []string{"qrAlgorithm", "qrAlgorithm(Symmetric)", "qrAlgorithm
 	"eigensystem", "eigensystem(Symmetric)", "svd", "hessenbergReduction", "householderBidiagonalization",
 	"householderTridiagonalization", "gramSchmidt", "cholesky", "cholesky(LDL,ForcePD)", "matrixInverse", "determinant",
 	"matrixInverse(PositiveDefinite)", "determinant(PositiveDefinite)", "backSubstitution", "msqrt", "msqrtInv",
-	"svd(InSitu.A)", "hessenbergReduction(InSitu.H)"}
+	"svd(InSitu.A)", "hessenbergReduction(InSitu.H)", "qrAlgorithm(Symmetric,InSitu-reused)", "eigensystem(Symmetric,InSitu-reused)"}
 
 // which selects the entry point and its options; sym: 2 = symmetric input
 func verif_C12_alg(which, kind, n int) {
 	structure := 0
 	switch which {
-	case 1, 2, 5, 9, 11, 12, 15, 16, 18:
+	case 1, 2, 5, 9, 11, 12, 15, 16, 18, 22, 23:
 		structure = 2
 	case 17:
 		structure = 1
 	}
 	a, E := symMatrix(kind, n, structure, "a")
+	if which == 18 || which == 19 {
+		// matrix square roots: a symmetric strictly diagonally dominant matrix with
+		// positive diagonal (hence positive definite, the routine's domain), built
+		// from arbitrary inputs: diagonal 2 + x^2, off-diagonal y / (1 + y^2)
+		for i := 0; i < n; i++ {
+			for j := i; j < n; j++ {
+				x := E[i][j]
+				if i == j {
+					E[i][j] = 2 + x*x
+				} else {
+					E[i][j] = x / (1 + x*x)
+					E[j][i] = E[i][j]
+				}
+			}
+		}
+		for i := 0; i < n; i++ {
+			for j := 0; j < n; j++ {
+				a.At(i, j).SetFloat64(E[i][j])
+			}
+		}
+	}
 	t := elemType(kind)
 	label := c12AlgNames[which] + ":input-unchanged"
 	VerifWatch(label, a)
@@ -102,6 +123,18 @@ func verif_C12_alg(which, kind, n int) {
 		case 21:
 			in := &hessenbergReduction.InSitu{H: junkMatrix(kind, n)}
 			hessenbergReduction.Run(a, in)
+		case 22: // one InSitu object, empty at first, reused for a second matrix
+			in := &qrAlgorithm.InSitu{InitializeH: true, InitializeU: true}
+			qrAlgorithm.Run(a, qrAlgorithm.Symmetric{true}, in)
+			a2, _ := symMatrix(kind, n, 2, "a2")
+			qrAlgorithm.Run(a2, qrAlgorithm.Symmetric{true}, in)
+		case 23:
+			in := &eigensystem.InSitu{}
+			in.QrAlgorithm.InitializeH = true
+			in.QrAlgorithm.InitializeU = true
+			eigensystem.Run(a, eigensystem.Symmetric{true}, in)
+			a2, _ := symMatrix(kind, n, 2, "a2")
+			eigensystem.Run(a2, eigensystem.Symmetric{true}, in)
 		}
 	})
 	_ = t
